@@ -25,7 +25,9 @@ namespace nmtools::index
         auto ret = return_t {};
         if constexpr (!meta::is_constant_index_array_v<return_t>) {
             // TODO: use index_type instead of size_t
-            size_t d = ceil_(float(stop - start) / step);
+            // stop behind start (in the direction of step): empty range (as in numpy)
+            const auto n = float(stop - start) / step;
+            size_t d = (n > 0) ? ceil_(n) : 0;
             at(ret,0) = d;
         }
         return ret;
